@@ -139,6 +139,14 @@ func (ex *Exec) VerifyFunc(fn *ssa.Function, fc *contract.Func, cs *contract.Cas
 			panic(r)
 		}
 	}()
+	ex.Abstract = map[string]bool{}
+	if fc != nil {
+		for _, a := range strings.Split(fc.Opts["abstract"], ",") {
+			if a = strings.TrimSpace(a); a != "" {
+				ex.Abstract[a] = true
+			}
+		}
+	}
 	st := ex.NewState()
 	for k, v := range ex.InitGhost {
 		st.Ghost[k] = v
@@ -189,6 +197,7 @@ func (ex *Exec) VerifyFunc(fn *ssa.Function, fc *contract.Func, cs *contract.Cas
 		}
 		nret++
 		post := ex.scopeFor(fn, o.St, entry, args, o.Ret)
+		post.Locals, post.LocalsAddr = o.Locals, o.LocalsAddr
 		if len(enss) > 8 {
 			// many post-conditions: one obligation per path for their conjunction; the runner
 			// splits it into its conjuncts when it is not discharged
